@@ -42,6 +42,13 @@ def gen_case(rng, cls):
         seqs = gen.family(rng, n, rng.randint(8, 30), alpha, psub=0.2, pindel=0.05)
         if kind == "protein":
             kind, seqs = _ensure_protein(rng, seqs)
+    elif cls == "huge":
+        kind = rng.choice(["dna", "protein"])
+        alpha = gen.DNA if kind == "dna" else gen.AA
+        n = rng.choice([4200, 5200, 6100])
+        seqs = gen.family(rng, n, rng.randint(6, 16), alpha, psub=0.2, pindel=0.05)
+        if kind == "protein":
+            kind, seqs = _ensure_protein(rng, seqs)
     elif cls == "long":
         kind = rng.choice(["dna", "protein"])
         alpha = gen.DNA if kind == "dna" else gen.AA
@@ -88,11 +95,11 @@ def check_case(ck, paths_small, paths_big, case, idx):
     recs = case["recs"]
     kind = case["kind"]
     nonempty = [(n, s) for n, s in recs if s]
-    big = case["cls"] in ("many", "long")
+    big = case["cls"] in ("many", "long", "huge")
     paths = paths_big if big else paths_small
     word = rng.choice(kal.ADMISSIBLE[kind])
     gpo, gpe, tgpe = penalties(rng)
-    nt = rng.choice([1, 2, 3, 8, 16])
+    nt = rng.choice([1, 2, 3, 8, 16]) if case["cls"] != "huge" else rng.choice([3, 7, 8, 16])
     ctxbase = {"case_class": case["cls"], "kind": kind, "type": word, "gpo": gpo, "gpe": gpe, "tgpe": tgpe}
     f = ck.tmp(".fa")
     common.write_bytes(f, fmt.write_fasta(recs, width=rng.choice([60, 60, 80, 1000000])))
@@ -160,7 +167,7 @@ def check_case(ck, paths_small, paths_big, case, idx):
         if res.proc.rc == 1:
             ck.violation("cli:accepted-input-failed", "kalign exited 1 on a valid input: %s" % res.stderr[-300:], dict(ctxbase, input=recs if len(recs) < 400 else "(large)"))
     # (a) array API
-    if len(nonempty) == len(recs) and len(recs) <= 600:
+    if len(nonempty) == len(recs) and (len(recs) <= 600 or case["cls"] == "huge"):
         sf = ck.tmp(".seqs")
         common.write_bytes(sf, "".join(s + "\n" for _, s in recs))
         r, arecs = common.kvdrv(paths, ["arr %s %d %d %s %s %s" % (sf, nt, kal.TYPES[word], common.fnum(gpo if gpo is not None else -1),
@@ -199,10 +206,10 @@ def run(ck, tier):
     paths = build("asan")
     sc = getattr(ck, "scale", 1.0)
     if tier == "quick":
-        plan = [("bulk", 60), ("boundary_len", 17), ("boundary_n", 6), ("empties", 8), ("ratio", 2), ("many", 1), ("long", 1)]
-        big = paths
+        plan = [("huge", 2), ("bulk", 60), ("boundary_len", 17), ("boundary_n", 6), ("empties", 8), ("ratio", 2), ("many", 1), ("long", 1)]
+        big = build("rel")
     else:
-        plan = [("bulk", 1200), ("boundary_len", 170), ("boundary_n", 60), ("empties", 120), ("ratio", 20), ("many", 12), ("long", 12)]
+        plan = [("huge", 12), ("bulk", 1200), ("boundary_len", 170), ("boundary_n", 60), ("empties", 120), ("ratio", 20), ("many", 12), ("long", 12)]
         big = build("rel")
     cases = []
     for cls, n in plan:
